@@ -349,6 +349,131 @@ func genEnum(t *rapid.T) Case {
 	return c
 }
 
+// SoftPHP: holes+1 pigeons, holes holes; "pigeon p sits somewhere" is a soft clause of weight 1, "two pigeons
+// do not share a hole" is hard: the optimum is 1 by construction (one pigeon stays out), and proving it is a
+// pigeonhole refutation inside the last optimisation round: hundreds to thousands of conflicts with restarts
+// and clause-database reductions while the bound constraints and the facts they implied are in force.
+type SoftPHP struct {
+	Holes int   `json:"holes"`
+	Cap   int   `json:"cap"`
+	Procs int   `json:"procs"`
+	NbMax int   `json:"nbmax,omitempty"`
+	Via   string `json:"via"` // wcnf | solver
+}
+
+func checkSoftPHP(c SoftPHP, o *vf.Obs) error {
+	old := runtime.GOMAXPROCS(c.Procs)
+	defer runtime.GOMAXPROCS(old)
+	gs.Arm(c.NbMax, 200_000_000)
+	defer gs.Arm(0, 0)
+	holes, pigeons := c.Holes, c.Holes+1
+	n := pigeons * holes
+	v := func(p, h int) int { return p*holes + h + 1 }
+	var wcs []texts.WClause
+	for p := 0; p < pigeons; p++ {
+		var cl []int
+		for h := 0; h < holes; h++ {
+			cl = append(cl, v(p, h))
+		}
+		wcs = append(wcs, texts.WClause{Lits: cl, Weight: 1})
+	}
+	for h := 0; h < holes; h++ {
+		for p := 0; p < pigeons; p++ {
+			for q := p + 1; q < pigeons; q++ {
+				wcs = append(wcs, texts.WClause{Lits: []int{-v(p, h), -v(q, h)}})
+			}
+		}
+	}
+	costOf := func(model []bool) (int, bool) {
+		cost := 0
+		for _, w := range wcs {
+			if oracle.ModelSatisfies([][]int{w.Lits}, model) >= 0 {
+				if w.Weight == 0 {
+					return 0, false
+				}
+				cost += w.Weight
+			}
+		}
+		return cost, true
+	}
+	var optimal func(ch chan solver.Result) solver.Result
+	var stats func() solver.Stats
+	if c.Via == "wcnf" {
+		s, err := maxsat.ParseWCNF(strings.NewReader(texts.WCNF(n, pigeons+1, wcs, texts.WCNFLayout{})))
+		if err != nil {
+			return err
+		}
+		optimal = func(ch chan solver.Result) solver.Result { return s.Optimal(ch, nil) }
+		stats = func() solver.Stats { return solver.Stats{} }
+	} else {
+		var cls [][]int
+		var costLits []solver.Lit
+		for i, w := range wcs {
+			cl := append([]int{}, w.Lits...)
+			if w.Weight > 0 {
+				r := n + i + 1
+				cl = append(cl, r)
+				costLits = append(costLits, solver.IntToLit(int32(r)))
+			}
+			cls = append(cls, cl)
+		}
+		pb := solver.ParseSliceNb(cls, n+pigeons)
+		pb.SetCostFunc(costLits, nil)
+		s := solver.New(pb)
+		optimal = func(ch chan solver.Result) solver.Result { return s.Optimal(ch, nil) }
+		stats = func() solver.Stats { return s.Stats }
+	}
+	ch := make(chan solver.Result, c.Cap)
+	var ret solver.Result
+	stream, closed, perr := runStream(Case{}, ch, func() error { ret = optimal(ch); return nil })
+	if perr != nil {
+		return perr
+	}
+	st := stats()
+	o.ClassIf(st.NbRestarts > 0, "restart>0")
+	o.ClassIf(st.NbDeleted > 0, "reduceDB>0")
+	o.Class(fmt.Sprintf("holes-%d", c.Holes))
+	o.Nontrivial()
+	if !closed {
+		return fmt.Errorf("the call returned but the result channel is not closed")
+	}
+	prev := 0
+	for i, r := range stream {
+		if r.Status != solver.Sat {
+			return fmt.Errorf("result %d has status %v; the instance is satisfiable with cost 1", i, r.Status)
+		}
+		k, ok := costOf(r.Model[:n])
+		if !ok {
+			return fmt.Errorf("result %d puts two pigeons in one hole", i)
+		}
+		if k != r.Weight {
+			return fmt.Errorf("result %d reports cost %d, its model leaves %d pigeons out", i, r.Weight, k)
+		}
+		if i > 0 && r.Weight >= prev {
+			return fmt.Errorf("costs do not strictly decrease along the stream: %d then %d", prev, r.Weight)
+		}
+		prev = r.Weight
+	}
+	if len(stream) == 0 || ret.Status != solver.Sat || ret.Weight != 1 || stream[len(stream)-1].Weight != 1 {
+		return fmt.Errorf("returned (%v, %d) after %d results; the optimum is 1 by construction", ret.Status, ret.Weight, len(stream))
+	}
+	return nil
+}
+
+func genSoftPHP(t *rapid.T) SoftPHP {
+	c := SoftPHP{Holes: rapid.SampledFrom([]int{5, 6, 7}).Draw(t, "holes"), Cap: rapid.IntRange(0, 2).Draw(t, "cap"),
+		Procs: rapid.SampledFrom([]int{1, 4}).Draw(t, "procs"), Via: rapid.SampledFrom([]string{"wcnf", "solver"}).Draw(t, "via")}
+	if rapid.Bool().Draw(t, "low") {
+		c.NbMax = rapid.IntRange(50, 400).Draw(t, "limit")
+	}
+	return c
+}
+
+func init() {
+	vf.Register(vf.Sub[SoftPHP]{Name: "soft-pigeonhole", Quick: 16, Thorough: 100, Gen: genSoftPHP, Check: checkSoftPHP, Journal: true,
+		Rule: "holes+1 pigeons in 5..7 holes with soft 'pigeon sits somewhere' clauses: optimum 1 by construction; the last optimisation round is a pigeonhole refutation (restarts, clause-database reductions, with the bound constraints and the facts they implied in force); through ParseWCNF+Optimal(chan) or Solver.Optimal(chan) with relaxation literals; every streamed result validated, costs strictly decreasing, last = returned = 1, channel closed before return"})
+}
+
 func init() {
 	tail := "; consumer = channel capacity 0..3 x 0..3 runtime.Gosched() calls after each receive x GOMAXPROCS in {1,2,8}; each case run twice; the producer runs in a goroutine, the consumer selects on the channel and on the producer's return: when the producer has returned the channel must already be closed; asserted: every delivered result is a model with its true cost, costs strictly decrease, Unsat only alone, last delivered = returned = brute-force optimum; a send on a closed channel or a double close panics and is caught"
 	vf.Register(
